@@ -89,9 +89,13 @@ ArgC == [k |-> "cself", name |-> "", ty |-> TNone]
 ArgM == [k |-> "mself", name |-> "", ty |-> TNone]
 Arg(name, ty) == [k |-> "named", name |-> name, ty |-> ty]
 
+(* xattrs: further attributes, as raw text, next to the interpreted ones (a second *)
+(* calling_convention attribute, attributes the compiler does not know)           *)
 Func(name, vis, doc, args, ret, addr, index, cc) ==
   [name |-> name, vis |-> vis, doc |-> doc, args |-> args, ret |-> ret,
-   addr |-> addr, index |-> index, cc |-> cc]
+   addr |-> addr, index |-> index, cc |-> cc, xattrs |-> <<>>]
+BogusCC == "calling_convention(\"bogus\")"
+HasBadExtra(f) == "xattrs" \in DOMAIN f /\ \E i \in DOMAIN f.xattrs : f.xattrs[i] = BogusCC
 
 NoVft == [has |-> FALSE, pos |-> 0, size |-> None, funcs |-> <<>>, doc |-> <<>>]
 Vft(size, funcs) == [has |-> TRUE, pos |-> 0, size |-> size, funcs |-> funcs, doc |-> <<>>]
